@@ -44,15 +44,18 @@ def entOf (fs : List Str) : Ent :=
 
 def pathOf (s : Str) : Path := nonEmpty (splitOn '/' s)
 
+/-- a path as Python sees it: absolute when it starts with `/`, else relative to the working directory -/
+def absOf (cwd : Path) (s : Str) : Path := absolutize cwd (s.head? == some '/') (pathOf s)
+
 structure Query where
   ctx : Option Nat
   path : Option Path
   ref : Ref
 
-def queryOf (fs : List Str) : Query :=
+def queryOf (cwd : Path) (fs : List Str) : Query :=
   match fs with
   | [ctx, path, name, kind, child, ckind] =>
-    { ctx := optNat ctx, path := if path == ['-'] then none else some (pathOf path),
+    { ctx := optNat ctx, path := if path == ['-'] then none else some (absOf cwd path),
       ref := { name := name, kind := optStr kind, child := optStr child, childKind := optStr ckind } }
   | _ => { ctx := none, path := none, ref := { name := [] } }
 
@@ -78,7 +81,7 @@ structure Acc where
   lists : List (String × List Item) := []
   queries : List Query := []
 
-def feed (a : Acc) (f : Str) : Acc :=
+def feed (cwd : Path) (a : Acc) (f : Str) : Acc :=
   match splitOn '|' f with
   | t :: rest =>
     if t == ['E'] then { a with ents := entOf rest :: a.ents }
@@ -86,7 +89,7 @@ def feed (a : Acc) (f : Str) : Acc :=
       match rest with
       | [attr, items] => { a with lists := (String.ofList attr, itemsOf (splitOn ',' items)) :: a.lists }
       | _ => a
-    else if t == ['Q'] then { a with queries := queryOf rest :: a.queries }
+    else if t == ['Q'] then { a with queries := queryOf cwd rest :: a.queries }
     else a
   | [] => a
 
@@ -98,9 +101,9 @@ def dispatchC11 : List Str → Option (List Str)
     if cmd == "c11.conv".toList then
       match args with
       | base :: cwd :: rest =>
-        let a := rest.foldl feed {}
+        let a := rest.foldl (feed (pathOf cwd)) {}
         let P : Project := { ents := a.ents.reverse, lists := a.lists.reverse }
-        let env : Env := { base := pathOf base, cwd := pathOf cwd }
+        let env : Env := { base := absOf (pathOf cwd) base, cwd := pathOf cwd }
         some ("ok".toList :: a.queries.reverse.map (answer env P))
       | _ => some ["bad-request".toList]
     else if cmd == "c11.relpath".toList then
